@@ -2,18 +2,18 @@ INIT Init
 NEXT Next
 CONSTANTS
   SpeciesSeq <- Species5
-  Catalog <- Cat12
+  Catalog <- Cat6
   Comp <- NoComp
   UseComp = FALSE
-  MaxRx = 2
+  MaxRx = 1
   AllowDup = FALSE
-  Modes <- Modes_One
-  MaxSys = 1
+  Modes <- Modes_Two
+  MaxSys = 3
   MaxOps = 0
   Preds <- Preds_None
-  QueryKinds <- Q_Yields
+  QueryKinds <- Q_Cat3
   ConcGrid <- G_None
-  YieldK <- K_Q
+  YieldK <- K_None
   TerminalQueries = TRUE
 
 INVARIANT WorkspaceWellFormed
